@@ -43,7 +43,7 @@ pub fn run(ctx: &Ctx) -> Report {
                 note_classes(&mut rep, kc, bc);
                 let random = gen::class_is_random(kc) || (gen::class_is_random(bc) && bs >= 8);
                 // call shapes rotate: in place, b2b and in/out over separate buffers, backend direct
-                let sh = |k: u64| [(Shape::Block, false), (Shape::BlockB2b, true), (Shape::BlockInout, true), (Shape::BackendBlock, true), (Shape::BlockInout, false)][((i + j + k) % 5) as usize];
+                let sh = |k: u64| [(Shape::Block, false), (Shape::BlockB2b, true), (Shape::BlockInout, true), (Shape::BackendBlock, true), (Shape::BackendBlockInplace, false)][((i + j + k) % 5) as usize];
                 let c = super::kat::run_shape(&inst, true, sh(0), &x);
                 let back = super::kat::run_shape(&inst, false, sh(1), &c);
                 rep.case(case_hash(&id, &key, &x, 1), random);
@@ -75,7 +75,7 @@ pub fn run(ctx: &Ctx) -> Report {
                 let cl = if rng.below(2) == 0 { 0 } else { bc };
                 data.extend(gen::gen(&mut rng, bs, cl));
             }
-            let bsh = |k: u64| [(Shape::Blocks, false), (Shape::BlocksB2b, true), (Shape::BlocksInout, true), (Shape::BackendPar, true), (Shape::BackendPar, false)][((i + k) % 5) as usize];
+            let bsh = |k: u64| [(Shape::Blocks, false), (Shape::BlocksB2b, true), (Shape::BlocksInout, true), (Shape::BackendPar, true), (Shape::BackendParInplace, false)][((i + k) % 5) as usize];
             let mut buf = super::kat::run_shape(&inst, true, bsh(0), &data);
             buf = super::kat::run_shape(&inst, false, bsh(1), &buf);
             rep.case(case_hash(&id, &key, &data, 3), n > 0);
